@@ -9,41 +9,6 @@ variable {α : Type}
 
 /-! ### rankers with internal state (random, call-counting, inconsistent) -/
 
-/-- `mergeArrays` with a ranker that carries state `σ` across calls -/
-def mergeM {σ : Type} (rank : σ → α → α → Rank × σ) : σ → List α → List α → List α × σ
-  | st, [], r => (r, st)
-  | st, l, [] => (l, st)
-  | st, a :: l, b :: r =>
-    let (q, st') := rank st a b
-    if q = .lt then
-      let (m, st'') := mergeM rank st' l (b :: r)
-      (a :: m, st'')
-    else
-      let (m, st'') := mergeM rank st' (a :: l) r
-      (b :: m, st'')
-
-def mergePassM {σ : Type} (rank : σ → α → α → Rank × σ) (w : Nat) : Nat → σ → List α → List α × σ
-  | 0, st, xs => (xs, st)
-  | f+1, st, xs =>
-    match xs with
-    | [] => ([], st)
-    | _ =>
-      let (m, st') := mergeM rank st (xs.take w) ((xs.drop w).take w)
-      let (rest, st'') := mergePassM rank w f st' (xs.drop (2*w))
-      (m ++ rest, st'')
-
-def sortLoopM {σ : Type} (rank : σ → α → α → Rank × σ) : Nat → Nat → σ → List α → List α × σ
-  | 0, _, st, xs => (xs, st)
-  | f+1, w, st, xs =>
-    if w < xs.length then
-      let (ys, st') := mergePassM rank w xs.length st xs
-      sortLoopM rank f (2*w) st' ys
-    else (xs, st)
-
-/-- `SortValues` with a stateful ranker -/
-def sortValuesM {σ : Type} (rank : σ → α → α → Rank × σ) (st : σ) (xs : List α) : List α × σ :=
-  sortLoopM rank xs.length 1 st xs
-
 theorem mergeM_perm {σ : Type} (rank : σ → α → α → Rank × σ) :
     ∀ st l r, (mergeM rank st l r).1.Perm (l ++ r)
   | st, [], r => by simp [mergeM]
